@@ -1,7 +1,7 @@
 """C11 discipline clauses (ordering / FIFO / forbidden constructs / sibling writers) and CLI siblings (C16)."""
 from __future__ import annotations
 import re, os
-from ..astq import Node, up, strip, strip_cast, walk_no_nested_fn, calls, dominates, walk
+from ..astq import Node, up, strip, strip_cast, walk_no_nested_fn, calls, dominates, walk, binding_before
 from ..rules.layout import origin, origin_short
 from . import staging
 
@@ -191,6 +191,25 @@ def ob_source_siblings(ctx, res):
             if not (okg and re.fullmatch(r"Some\(&%s\.1\)" % okg.group(1), up(strip(a0["body"]))) and up(a1["pat"]) == "_" and up(strip(a1["body"])) == "None"):
                 res.fail("sources/%s/next-guard" % impl, init, "next value must be passed iff it belongs to the same chromosome; got `%s`" % up(init)[:120])
                 continue
+            # the chromosome compared with must be the one the processor receiving the value was started for
+            gvar = okg.group(2)
+            proc = up(strip(d["recv"]))
+            pb = binding_before(fn, proc, d)
+            same = False
+            if pb is not None and pb[0] == "let" and pb[1].get("init") is not None and "start_processing(" in up(pb[1]["init"]):
+                sp = [c for c in walk_no_nested_fn(pb[1]["init"]) if c.k == "call" and up(c["func"]) == "start_processing"][0]
+                a0 = up(strip(sp["args"][0]))
+                gb = binding_before(fn, gvar, d)
+                ginit = up(strip(gb[1]["init"])) if gb is not None and gb[0] == "let" and gb[1].get("init") is not None else None
+                same = a0 == gvar or (ginit is not None and (ginit == a0 or ginit.replace(".to_string()", "") == a0))
+            elif pb is not None and pb[0] == "arm":
+                # (curr_chrom, curr_state) destructured together from the current state
+                names = re.findall(r"\b\w+\b", up(pb[1]["pat"]))
+                same = gvar in names and proc in names and up(pb[1]["pat"]).replace(" ", "").find("(%s,%s)" % (gvar, proc)) >= 0
+            if not same:
+                res.fail("sources/%s/next-chrom" % impl, init, "the look-ahead is compared with `%s`, which is not the chromosome the processor `%s` was started for: the first/last "
+                         "value of a chromosome would be told the wrong `next` (sections end early or straddle chromosomes)" % (gvar, proc))
+                continue
             # the awaited result is propagated
             p = d.parent
             if not (p is not None and p.k == "await" and p.parent is not None and p.parent.k == "try"):
@@ -232,6 +251,7 @@ def ob_writer_siblings(ctx, res):
             res.fail("writers/bg/differ", b[0][2], "threaded bedGraph writer differs from the serial one: %r %s vs %r %s" % (b[0][0], b[0][1], a[0][0], a[0][1]))
         elif not res.violations:
             res.ok(a[0][2], "bedGraph writers (serial, threaded, from-bed): identical format and argument order (chrom, start, end, ryu(value))")
+    _unmodified(res, [ctx.ast.fn(BG, "write_bg_singlethreaded"), ctx.ast.fn(BG, "file_future"), ctx.ast.fn(BB, "write_bed_singlethreaded"), ctx.ast.fn(BB, "file_future")])
     q1, q2 = _queries(st, "get_interval"), _queries(ff, "get_interval")
     if len(q1) != 1 or len(q2) != 1:
         res.fail("writers/bg/query-sites", st, "one get_interval per writer expected")
@@ -323,3 +343,16 @@ def ob_option_taint(ctx, res):
     if not res.violations:
         res.ok(W, "%d uses of inmemory / channel_size / nthreads in the writer modules, all in TempFileBuffer::new, future_channel, channel(), worker_threads, option copies or the `nthreads == 1` switch" % n)
         res.count("option_uses", n)
+
+
+def _unmodified(res, fns):
+    """the record printed is the one the range query returned: no assignment to its fields, binding not `mut`"""
+    for fn in fns:
+        for n in walk_no_nested_fn(fn.body):
+            if n.k in ("assign",) or (n.k == "binary" and n["op"].endswith("=") and n["op"] not in ("==", "<=", ">=", "!=")):
+                l = strip(n["l"])
+                if isinstance(l, Node) and l.k == "field" and up(strip(l["base"])) in ("val", "raw_val", "entry", "value"):
+                    res.fail("writers/%s/modified" % fn.name, n, "`%s` alters a record between the range query and the output line: the converter no longer prints what the query returned "
+                             "(e.g. records straddling --start/--end are clipped)" % up(n)[:60])
+        if not [v for v in res.violations if "writers/%s/modified" % fn.name in v["role"]]:
+            res.ok(fn, "%s prints the records exactly as returned by the range query" % fn.name)
